@@ -29,9 +29,20 @@ type connHooks struct {
 
 var hookReg sync.Map // *tls.Conn -> *connHooks
 
+// hookFallback serves connections the harness cannot name (the *Conn inside a QUICConn); scenarios
+// that set it hold hookFallbackMu for the whole execution.
+var (
+	hookFallbackMu sync.Mutex
+	hookFallback   *connHooks
+	hookFallbackOn func(c *tls.Conn) bool
+)
+
 func hooksFor(c *tls.Conn) *connHooks {
 	if v, ok := hookReg.Load(c); ok {
 		return v.(*connHooks)
+	}
+	if hookFallback != nil && (hookFallbackOn == nil || hookFallbackOn(c)) {
+		return hookFallback
 	}
 	return nil
 }
